@@ -133,6 +133,7 @@ def run(pid, tier, seed, work, a, t0):
             plan.remove((un, ps))
             continue
         builts[un] = b
+        ps[:] = [p for p in ps if b.get('missing', {}).get(p['name']) != 'optional']
     # run all proofs of all units in one pool
     from concurrent.futures import ThreadPoolExecutor
     jobs = int(os.environ.get('VS_JOBS', '9'))      # proofs in flight; each runs two solver processes (vacuity pass + proof pass)
